@@ -142,7 +142,8 @@ fn ns_plain_one_line(s: &[u8]) -> bool {
         }
         prev = c;
     }
-    true
+    // white space is part of a plain scalar only between two non-space characters
+    !s_white(prev)
 }
 
 fn must_quote(s: &[u8]) -> bool {
@@ -159,17 +160,36 @@ fn must_quote(s: &[u8]) -> bool {
     let kws = kws.map(|a| a.map(str::as_bytes));
 
     // https://yaml.org/spec/1.2.2/#912-document-markers
-    let is_doc_marker = |s: &[u8]| matches!(s, b"---" | b"...");
+    // (a marker is also recognised when it is followed by white space)
+    let is_doc_marker = |s: &[u8]| {
+        matches!(s, [b'-', b'-', b'-', rest @ ..] | [b'.', b'.', b'.', rest @ ..]
+            if rest.first().is_none_or(|c| b" \t".contains(c)))
+    };
 
-    // number overapproximation
-    let is_pos_num = |s: &[u8]| s.first().is_some_and(u8::is_ascii_digit);
-    let is_num = |s: &[u8]| is_pos_num(s.strip_prefix(b"-").unwrap_or(s));
+    fn strip_sign(s: &[u8]) -> &[u8] {
+        match s {
+            [b'-' | b'+', rest @ ..] => rest,
+            _ => s,
+        }
+    }
+    // number overapproximation: an optional sign, then a digit or a dot followed by a digit
+    let is_pos_num = |s: &[u8]| {
+        let s = s.strip_prefix(b".").unwrap_or(s);
+        s.first().is_some_and(u8::is_ascii_digit)
+    };
+    let is_num = |s: &[u8]| is_pos_num(strip_sign(s));
+    // infinity may carry a sign
+    let is_inf = |s: &[u8]| inf.iter().any(|i| i.as_bytes() == strip_sign(s));
 
     s == b"~"
         || is_doc_marker(s)
         || is_num(s)
+        || is_inf(s)
         || kws.iter().any(|ss| ss.contains(&s))
         || !ns_plain_one_line(s)
+        // valid, but our YAML parser rejects a final " -" before `,`, `]` or `}`
+        || s.ends_with(b" -")
+        || s.ends_with(b"\t-")
 }
 
 #[test]
